@@ -31,30 +31,43 @@ fn sorted_ids<T: AnnotationId>(it: impl Iterator<Item = T>) -> Vec<u32> {
 fn obs_set(o: &Ontology, ids: &[u32], universe: &[u32]) -> V {
     let r = crate::catch(std::panic::AssertUnwindSafe(|| {
         let s = mk(o, ids);
+        let ic_v = |x: &HpoSet| match x.information_content() {
+            Ok(ic) => V::C("Ok", vec![V::T(vec![n(dump::f32_bits(ic.gene())), n(dump::f32_bits(ic.omim_disease()))])]),
+            Err(e) => dump::err_v(&e),
+        };
+        // the aggregates of a set are asked for, the set is changed in place, and they are asked for again
+        // (each in its own catch_unwind: a replacement that is not a term makes them panic)
+        let agg = |x: &HpoSet| match crate::catch(std::panic::AssertUnwindSafe(|| V::T(vec![ln(&sorted_ids(x.gene_ids().into_iter())), ic_v(x)]))) {
+            Some(v) => V::C("Ok", vec![v]),
+            None => V::C("Panic", vec![]),
+        };
         let a = members(&s.child_nodes(), universe);
         let b = members(&s.without_modifier(), universe);
         let mut s2 = mk(o, ids);
+        let _ = agg(&s2);
         s2.remove_modifier();
         let b2 = members(&s2, universe);
+        let after_b = agg(&s2);
         let c = members(&s.without_obsolete(), universe);
         let mut s3 = mk(o, ids);
+        let _ = agg(&s3);
         s3.remove_obsolete();
         let c2 = members(&s3, universe);
+        let after_c = agg(&s3);
         let d = members(&s.with_replaced_obsolete(), universe);
         let mut s4 = mk(o, ids);
+        let _ = agg(&s4);
         s4.replace_obsolete();
         let d2 = members(&s4, universe);
+        let after_d = agg(&s4);
         let g = ln(&sorted_ids(s.gene_ids().into_iter()));
         let m = ln(&sorted_ids(s.omim_disease_ids().into_iter()));
         let r = ln(&sorted_ids(s.orpha_disease_ids().into_iter()));
         let mut cats: Vec<(u32, usize)> = s.categories().into_iter().map(|(k, v)| (k.as_u32(), v)).collect();
         cats.sort();
         let cats = V::L(cats.into_iter().map(|(k, v)| V::T(vec![n(k), nu(v)])).collect());
-        let ic = match s.information_content() {
-            Ok(ic) => V::C("Ok", vec![V::T(vec![n(dump::f32_bits(ic.gene())), n(dump::f32_bits(ic.omim_disease()))])]),
-            Err(e) => dump::err_v(&e),
-        };
-        V::T(vec![a, b, b2, c, c2, d, d2, g, m, r, cats, ic])
+        let ic = ic_v(&s);
+        V::T(vec![a, b, b2, c, c2, d, d2, g, m, r, cats, ic, V::L(vec![after_b, after_c, after_d])])
     }));
     match r {
         Some(v) => V::C("Ok", vec![v]),
@@ -71,7 +84,7 @@ pub fn cases(rng: &mut Rng, count: usize, tier: &str) -> Vec<Case> {
         o.roots_eighths = 6;
         o.max_records = 4;
         let mut tags = vec![];
-        let (w, f) = world::gen_world(rng, o, &mut tags);
+        let (w, f) = world::gen_world_custom(rng, o, &mut tags, 4);
         let bl = w.build();
         let ids = f.ids();
         let mut universe: BTreeSet<u32> = ids.iter().copied().collect();
